@@ -13,6 +13,10 @@ Import ListNotations.
 Inductive ccase :=
 | CTool (t : tool) (j : job) (cmd sfa refa : option (list string))
         (stdout stderr : option string) (ok : bool) (obs_out obs_err : option string)
+        (envd : list (string * vfrom)) (inh envo : list (string * string))
+   (* envd: the EnvVarRequirement definitions; envo: the C30_* variables the tool process had, declared ones first in
+      declaration order, then any other; inh: the C30_* variables of the RUNNER's own environment (run_in_subprocess
+      starts the tool's shell with os.environ | location.environment, so they are inherited unless redeclared) *)
    (* ok: StreamFlow completed, so obs_out/obs_err are meaningful *)
 | CStreams (stdout stderr : option string) (obs_out obs_err : option string).
    (* declared stdout/stderr of the tool; the files fd 1 / fd 2 of the process were on under StreamFlow *)
@@ -25,7 +29,7 @@ Definition agrees (model : option (list string)) (obs : option (list string)) : 
 
 Definition check_case (c : ccase) : bool :=
   match c with
-  | CTool t j cmd sfa refa so se ok oo oe =>
+  | CTool t j cmd sfa refa so se ok oo oe envd inh envo =>
       (* StreamFlow: the command list, then the argv whenever the fragment can read the line *)
       agrees (Some (sf_cmd t j)) cmd
       && agrees (sf_argv t j) sfa
@@ -35,6 +39,8 @@ Definition check_case (c : ccase) : bool :=
          with shellQuote: false redirects too; [sf_argv] = Some means the line is one simple command without operators *)
       && (negb ok || match sf_argv t j with None => true | Some _ =>
                        opt_eqb String.eqb (sf_stdout_target so se) oo && opt_eqb String.eqb (sf_stderr_target so se) oe end)
+      && (negb ok || list_eqb (pair_eqb String.eqb String.eqb) (app (sf_env envd j)
+              (filter (fun kv => negb (existsb (fun d => String.eqb (fst d) (fst kv)) envd)) inh)) envo)
   | CStreams so se oo oe =>
       opt_eqb String.eqb (sf_stdout_target so se) oo && opt_eqb String.eqb (sf_stderr_target so se) oe
   end.
